@@ -300,23 +300,33 @@ func runC07(c *Ctx) error {
 // c07ManyLocals: a function with more local slots than an instruction's packed operand can name (a range loop packs
 // its key and value slots into 16 bits each): the program is rejected or runs right - it never writes outside its frame
 func (c *Ctx) c07ManyLocals() {
-	for _, n := range []int{32700, 32770, 40000} {
+	// the slots of a range loop (iterator, key, value) are packed into 16-bit halves: every function size around the
+	// limit, called from a frame of the same size (a write below its own frame lands in the caller's locals)
+	ns := []int{32700, 40000}
+	for n := 32756; n <= 32772; n++ {
+		ns = append(ns, n)
+	}
+	for _, n := range ns {
 		var sb strings.Builder
-		sb.WriteString("func big(xs []int) int {\n")
+		sb.WriteString("func big(depth int, xs []int) int {\n\tkeep := 1001\n")
 		for i := 0; i < n; i++ {
 			fmt.Fprintf(&sb, "\tv%d := 1\n\t_ = v%d\n", i, i)
 		}
-		sb.WriteString("\ts := 0\n\tfor k, x := range xs {\n\t\ts += k + x\n\t}\n\treturn s\n}\nfunc outer() int {\n\ta, b, c, d := 1, 2, 3, 4\n\tr := big([]int{10, 20, 30})\n\treturn r*1000 + a + b + c + d\n}\ny := outer()\n")
+		sb.WriteString("\tif depth > 0 {\n\t\treturn big(depth-1, xs) + keep\n\t}\n\ts := 0\n\tfor k, x := range xs {\n\t\ts += k + x\n\t}\n\treturn s\n}\nfunc outer() int {\n\ta, b, c, d := 1, 2, 3, 4\n\tr := big(1, []int{5, 6, 7})\n\treturn r*1000 + a + b + c + d\n}\ny := outer()\n")
 		for _, opt := range []bool{false, true} {
 			vm := goat.New()
 			_, err := vm.VerifEval(sb.String(), opt)
 			c.Rep.Oracle["many-locals"]++
-			if err != nil {
+			if err != nil && strings.Contains(err.Error(), "error in compile") {
 				c.Rep.Count("many-locals-rejected")
 				continue
 			}
-			if got := vm.Get("main.y").String(); got != "63010" {
-				c.Rep.Violate(Violation{Kind: "oracle", Cut: "many-locals", Input: fmt.Sprintf("a function with %d locals and a range loop, called from a frame with four locals (optimize=%v)", n, opt), Impl: "y = " + got, Oracle: "63010, or an error"})
+			got := "error: " + fmt.Sprint(err)
+			if err == nil {
+				got = vm.Get("main.y").String()
+			}
+			if got != "1022010" {
+				c.Rep.Violate(Violation{Kind: "oracle", Cut: "many-locals", Input: fmt.Sprintf("a function with %d locals and a range loop, called by itself once and from a frame with four locals (optimize=%v)", n+3, opt), Impl: "y = " + got, Oracle: "1022010, or refused by the compiler"})
 			}
 		}
 	}
